@@ -20,7 +20,10 @@
 //!   route set is empty (no Route at all) or starts with a loose router (`lr`).  When the first route
 //!   lacks `lr` the strict-routing rewrite applies (Request-URI = first route, Route = rest + remote
 //!   target); the model offers that form as an *alternative* (`Template::strict`), because the property
-//!   does not assert the rewrite.
+//!   does not assert the rewrite.  The route set is a LIST: entries that repeat or resemble a neighbour
+//!   (a spiral, the double Record-Route of RFC 5658) count like any other.  A Route that deviates is named
+//!   `route-order` (the reversed list), `route-entries-missing` / `route-entries-added` (a sub- / super-sequence
+//!   of the route set), `route-missing`, `route-not-absent`, else `route-values`.
 //!
 //! URI comparison (`uri_equal`) is structural: scheme and host case-insensitively, user part and port
 //! literally, parameters as a set with case-insensitive names/values.  In `UriCtx::FromTo` the
@@ -303,6 +306,12 @@ pub fn route_value_equal(a: &str, b: &str) -> bool {
     uri_equal(&a.uri, &b.uri, UriCtx::Full) && norm(&a.params) == norm(&b.params)
 }
 
+/// `short` can be obtained from `long` by leaving entries out (order kept)
+pub fn is_subsequence(short: &[String], long: &[String]) -> bool {
+    let mut it = long.iter();
+    short.iter().all(|s| it.any(|l| route_value_equal(s, l)))
+}
+
 pub fn route_list_equal(a: &[String], b: &[String]) -> bool {
     a.len() == b.len() && a.iter().zip(b).all(|(x, y)| route_value_equal(x, y))
 }
@@ -498,6 +507,11 @@ impl RefDialog {
                     rev.reverse();
                     if t.route.len() > 1 && route_list_equal(&route, &rev) {
                         "route-order"
+                    } else if route.len() < t.route.len() && is_subsequence(&route, &t.route) {
+                        // every Route value is an entry of the route set, in order, but entries were left out
+                        "route-entries-missing"
+                    } else if route.len() > t.route.len() && is_subsequence(&t.route, &route) {
+                        "route-entries-added"
                     } else {
                         "route-values"
                     }
